@@ -72,7 +72,7 @@ def rule_deref_before_inspection(em, rep, rid, roots):
                 continue
             seen.add((f.qname, var))
             rep.ok(rid, '%s:%s' % (f.qname, var), 'inspections apply to a dereferenced value', f.loc(node))
-    rep.minimum('term inspections in entry points', n, 4)
+    rep.minimum('term inspections in entry points', n, 1)
 
 
 def rule_total_dispatch(em, rep, rid, funcs):
@@ -499,6 +499,22 @@ def rule_no_stopiteration_leak(em, rep, rid):
     rep.minimum('one-argument next() calls in generators', n, 1)
 
 
+def _dispatch_classes(em, f, depth=2, seen=None):
+    """class names tested with isinstance in f and in the plain (non-generator) helpers it calls"""
+    seen = seen if seen is not None else set()
+    if f in seen:
+        return set()
+    seen.add(f)
+    out = {x.id for n in own_nodes(f.node) if isinstance(n, ast.Call) and is_name(n.func, 'isinstance') and len(n.args) == 2
+           for x in ast.walk(n.args[1]) if isinstance(x, ast.Name)}
+    if depth > 0:
+        for n, cs in em.cg.calls.get(f, ()):
+            for c in cs:
+                if not c.is_generator and c.module.name == 'engine' and c.name not in ('get_value', 'query'):
+                    out |= _dispatch_classes(em, c, depth - 1, seen)
+    return out
+
+
 def rule_one_goal_resolver(em, rep, rid):
     rep.rule(rid, 'findall and once resolve their goal through call() (call graph), or handle atom and compound goals '
                   'themselves with the same table as call(): Atom => (name, []), Functor => (name, args), else no answer')
@@ -513,8 +529,7 @@ def rule_one_goal_resolver(em, rep, rid):
         if call in callees:
             rep.ok(rid, key, 'goal resolved by call()', f.loc())
         elif query in callees:
-            classes = {x.id for n in own_nodes(f.node) if isinstance(n, ast.Call) and is_name(n.func, 'isinstance') and len(n.args) == 2
-                       for x in ast.walk(n.args[1]) if isinstance(x, ast.Name)}
+            classes = _dispatch_classes(em, f)
             if {'Atom', 'Functor'} <= classes:
                 rep.ok(rid, key, 'own dispatch over Atom and Functor goals', f.loc())
             else:
@@ -525,8 +540,7 @@ def rule_one_goal_resolver(em, rep, rid):
             rep.violation(rid, key, '%s does not evaluate its goal' % name, f.loc())
     # call's own table
     cfg = em.cfg(call)
-    classes = {x.id for n in own_nodes(call.node) if isinstance(n, ast.Call) and is_name(n.func, 'isinstance') and len(n.args) == 2
-               for x in ast.walk(n.args[1]) if isinstance(x, ast.Name)}
+    classes = _dispatch_classes(em, call)
     if {'Atom', 'Functor'} <= classes:
         rep.ok(rid, call.qname + ':table', 'call() distinguishes Atom and Functor goals', call.loc())
     else:
